@@ -9,6 +9,7 @@ package main
 // exclusive use of every scratch object); every call's result is compared with its sequential result.
 
 import (
+	"runtime/debug"
 	"bufio"
 	"bytes"
 	"encoding/json"
@@ -222,6 +223,9 @@ func runPoolSched(args []string) {
 			case "pool.put":
 				emit(&poolEv{Ev: "put", G: g, S: small(a[0])})
 			case "scr.begin":
+				if os.Getenv("VH_DEBUG_SCR") != "" && a[1] == 1 {
+					fmt.Fprintf(os.Stderr, "SCR line=%d g=%d obj=%x\n%s\n", events+1, g, a[0], debug.Stack())
+				}
 				emit(&poolEv{Ev: "scr", G: g, Obj: small(a[0]), Kind: a[1]})
 			}
 		})
@@ -229,6 +233,10 @@ func runPoolSched(args []string) {
 			g := gOf()
 			if g == 0 {
 				return
+			}
+			if point != "scr" {
+				// the goroutine has left whatever scratch entry it was in and stands before a pool operation
+				emit(&poolEv{Ev: "at", G: g})
 			}
 			r := &gateReq{g, point, make(chan struct{})}
 			arrive <- r
@@ -290,8 +298,13 @@ func runPoolSched(args []string) {
 			if finished[g] || parked[g] == nil {
 				return true
 			}
-			if search { // run the search: through every scratch gate up to the next pool gate
-				for parked[g] != nil && parked[g].point == "scr" {
+			if search {
+				// run the search, but leave the goroutine parked INSIDE it, at the entry of its K-th scratch object (K rotates
+				// with the schedule and the goroutine): the other goroutines' steps then really interleave with a search in
+				// progress, and an object entered by two searches at once is observed as such (Trace_Pool!Scr).  The rest of
+				// the search runs when the goroutine's next step is scheduled.
+				k := 1 + (si+g)%4
+				for n := 1; parked[g] != nil && parked[g].point == "scr" && n < k; n++ {
 					if !release(g) {
 						return false
 					}
